@@ -142,6 +142,7 @@ def _version(a, b, c):
             (a, b, c), (n, ch, getattr(out, 'major_version', None),
                         getattr(out, 'minor_version', None),
                         getattr(out, 'revision', None))))
+    entry.frame_entries(obj, 0, want, out)
 
 
 def version_bulk(tier, shard, nshards, rec):
